@@ -10,6 +10,7 @@ run_demo() {  # prints PASS or FAIL
   for s in $sd/demo*.smt2; do
     [ -f "$s" ] || continue
     b=$(basename $s .smt2); exp=$sd/expected${b#demo}.out; [ -f $exp ] || exp=$sd/expected_output${b#demo}.txt
+    [ -f $exp ] || exp=$sd/$b.expected.out
     [ -f $exp ] || continue
     timeout 120 $wt/_build/opensmt $s > $sd/out_$b.txt 2>&1
     diff -q $sd/out_$b.txt $exp >> $log 2>&1 || ok=0
